@@ -585,7 +585,10 @@ class Emitter:
             for fn in list(em.addr_taken):
                 f = m.funcs.get(fn)
                 if f is None: continue
-                if len(f.params) > len(ats) or f.va: continue
+                if f.va: continue
+                # same arity; the only exception is a parameterless function called with arguments (libstdc++'s noop coroutine frame
+                # stores a void() function where void(void*) is called)
+                if len(f.params) != len(ats) and not (len(f.params) == 0 and len(ats) == 1): continue
                 if (f.ret.k == 'void') != (rt.k == 'void'): continue
                 if rt.k != 'void' and (f.ret.k == 'ptr') != (rt.k == 'ptr'): continue
                 if rt.k in ('struct', 'named') and tstr(f.ret) != tstr(rt): continue
